@@ -9,6 +9,7 @@ package main
 // functions of their own.
 
 import (
+	"go/token"
 	"bytes"
 	"fmt"
 	"go/types"
@@ -60,6 +61,62 @@ func polymorphicHelper(p *Prog, g *ssa.Function) bool {
 	return false
 }
 
+// paramUpdater: an unexported function that adds (or subtracts) one of its integer parameters to a member of a struct
+// of the repository (`func (s *Service) addConnections(delta int) { s.mutex.Lock(); s.conncounter += delta; ... }`): what
+// it does to the state is decided by the constant at each call site, so it is analysed there.
+func paramUpdater(p *Prog, g *ssa.Function) bool {
+	if g.Parent() != nil || g.Object() == nil || g.Object().Exported() || len(g.Blocks) == 0 || len(g.Blocks) > 6 {
+		return false
+	}
+	for _, b := range g.Blocks {
+		for _, in := range b.Instrs {
+			st, ok := in.(*ssa.Store)
+			if !ok {
+				continue
+			}
+			fa, ok := st.Addr.(*ssa.FieldAddr)
+			if !ok {
+				continue
+			}
+			pt, ok := fa.X.Type().Underlying().(*types.Pointer)
+			if !ok {
+				continue
+			}
+			nt, ok := pt.Elem().(*types.Named)
+			if !ok || nt.Obj().Pkg() == nil || p.Pkgs[nt.Obj().Pkg().Path()] == nil {
+				continue
+			}
+			bo, ok := st.Val.(*ssa.BinOp)
+			if !ok || (bo.Op != token.ADD && bo.Op != token.SUB) {
+				continue
+			}
+			isParam := func(v ssa.Value) bool {
+				if cv, ok := v.(*ssa.Convert); ok {
+					v = cv.X
+				}
+				prm, ok := v.(*ssa.Parameter)
+				if !ok {
+					return false
+				}
+				bt, ok := prm.Type().Underlying().(*types.Basic)
+				return ok && bt.Info()&types.IsInteger != 0
+			}
+			isLoad := func(v ssa.Value) bool {
+				ld, ok := v.(*ssa.UnOp)
+				if !ok || ld.Op != token.MUL {
+					return false
+				}
+				fa2, ok := ld.X.(*ssa.FieldAddr)
+				return ok && fa2.X == fa.X && fa2.Field == fa.Field
+			}
+			if isLoad(bo.X) && isParam(bo.Y) || bo.Op == token.ADD && isLoad(bo.Y) && isParam(bo.X) {
+				return true
+			}
+		}
+	}
+	return false
+}
+
 // isFuncLiteralArg: a function literal or method value, possibly converted to a named function type, or a method
 // expression / function constant.
 func isFuncLiteralArg(a ssa.Value) bool {
@@ -94,7 +151,7 @@ func normaliseHigherOrder(p *Prog) int {
 		if callsParamDirectly(f) {
 			helpers[f] = true
 		}
-		if polymorphicHelper(p, f) {
+		if polymorphicHelper(p, f) || paramUpdater(p, f) {
 			poly[f] = true
 		}
 	}
